@@ -81,10 +81,12 @@ CMD_TEXTS = ["GETINFO version", "GETINFO ns/all", "GETCONF SocksPort", "SIGNAL N
 
 
 def commands(long=True, max_parts=5):
-    return st.builds(lambda k, t, r, then: {"kind": k, "text": t, "reply": r, "then": then},
+    # "cbret": what a per-line callback handed to queue_command() returns (any callable is a legal callback:
+    # list.append returns None, file.write a character count, a predicate False)
+    return st.builds(lambda k, t, r, then, cbret: {"kind": k, "text": t, "reply": r, "then": then, "cbret": cbret},
                      st.sampled_from(["plain", "plain", "lines"]),
                      st.sampled_from(CMD_TEXTS), replies(max_parts, long),
-                     st.sampled_from([0, 0, 0, 1, 2]))
+                     st.sampled_from([0, 0, 0, 1, 2]), st.sampled_from([None, None, "len", "false", "obj"]))
 
 
 def schedules():
@@ -153,7 +155,7 @@ class _Session(object):
             if key is not None:
                 d = proto.get_info_incremental(key, got.append)
             else:
-                d = proto.queue_command(c["text"], got.append)
+                d = proto.queue_command(c["text"], _line_cb(got, c.get("cbret")))
         self.watches.append(Watch(d))
         m = c.get("then", 0)
         if m:
@@ -182,6 +184,16 @@ class _Session(object):
             guard += 1
             if guard > 1000:
                 break
+
+
+def _line_cb(got, cbret):
+    if cbret is None:
+        return got.append
+    if cbret == "len":
+        return lambda line: (got.append(line), len(line) + 1)[1]
+    if cbret == "false":
+        return lambda line: (got.append(line), False)[1]
+    return lambda line: (got.append(line), object())[1]
 
 
 def _filter_ok(lines):
@@ -295,6 +307,8 @@ def drive_session(case):
         res.label("submit-while-reply-in-progress")
     if s.reentrant:
         res.label("submit-from-inside-a-callback")
+    if any(c["kind"] == "lines" and c.get("cbret") and not c["text"].startswith("GETINFO ") for c in cmds):
+        res.label("per-line-callback-returns-a-value")
     if any(len(x) > 16384 for c in cmds for x in wire.reply_lines(c["reply"])):
         res.label("line>16384")
     return res
